@@ -15,9 +15,11 @@
     sml.encmsg <strict> <aq> <sq> <bin> <indent hex> <S> <F> <W> <dict> <item…> -> hex
     sml.parse  <strict> <all|one|hdr> <dict> <hex input>            -> <alloc> <depth> <result>
     sml.perr   <offset> <hex input>                                 -> <offset> <line> <col>
+    sml.steps  <strict> <all|one|hdr> <dict> <hex input>            -> <steps>   (Model/SmlCost.lean)
   (strict/bin/W: 0|1;  aq/sq: d|s|n = the QuoteStyle passed to WithASCIIQuote / WithSFQuote)
 -/
 import GoSecs.Model.Sml
+import GoSecs.Model.SmlCost
 import GoSecs.Drv.Secs2
 import Std.Data.HashMap
 
@@ -100,6 +102,12 @@ def runParse (O : Oracle) (strict : Bool) (entry : String) (input : Bytes) : Opt
   else if entry == "hdr" then some (parseOne O strict true input)
   else none
 
+def runSteps (O : Oracle) (strict : Bool) (entry : String) (input : Bytes) : Option Nat :=
+  if entry == "all" then some (parseAllC O strict input).2
+  else if entry == "one" then some (parseOneC O strict false input).2
+  else if entry == "hdr" then some (parseOneC O strict true input).2
+  else none
+
 def handle (cmd : String) (args : List String) : Option String :=
   match cmd with
   | "sml.tosml" =>
@@ -134,6 +142,18 @@ def handle (cmd : String) (args : List String) : Option String :=
             | some a, some b =>
               let sa := showOut a
               if sa == showOut b then sa else "undetermined"
+            | _, _ => "bad-op")
+         | _, _ => "bad-op")
+      | _ => "bad-op")
+  | "sml.steps" =>
+    some (match args with
+      | [st, entry, d, h] =>
+        (match boolOfTok st, bytesOfHex h with
+         | some strict, some input =>
+           let dict := parseDict d
+           (match runSteps (mkOracle dict false) strict entry input,
+                  runSteps (mkOracle dict true) strict entry input with
+            | some a, some b => if a == b then toString a else "undetermined"
             | _, _ => "bad-op")
          | _, _ => "bad-op")
       | _ => "bad-op")
